@@ -27,6 +27,7 @@ import (
 	"fmt"
 	"math/big"
 	"os"
+	"os/exec"
 	"sort"
 	"testing"
 	"time"
@@ -96,6 +97,7 @@ type c01Input struct {
 	Keys   []int      `json:"keys,omitempty"`   // skeys
 	Which  int        `json:"which,omitempty"`  // abi
 	Ws     [][2]int   `json:"ws,omitempty"`     // tw: (validator id, reward weight)
+	Child  bool       `json:"child,omitempty"`  // diff: additionally run the history in a separate process
 }
 
 type sudoStep struct {
@@ -623,28 +625,69 @@ type diffObs struct {
 	Kinds    map[string]int `json:"kinds"` // replica 0: delivered txs per op kind and outcome (input distribution only)
 	NTx      int            `json:"ntx"`
 	NValUpd  int            `json:"nvalupd"` // blocks with a non-empty validator update (replica 0)
+	Child    bool           `json:"child"`   // the last row of Replicas comes from a separate process
 }
 
-func runDiff(w *world, in c01Input) diffObs {
+// childDigests runs the history in a SEPARATE PROCESS (own heap layout, own map hash seeds, own
+// goroutine scheduling) and returns its per-block digests.
+func childDigests(in c01Input) ([]string, error) {
+	f, err := os.CreateTemp("", "c01-child-*.json")
+	if err != nil {
+		return nil, err
+	}
+	defer os.Remove(f.Name())
+	bz, _ := json.Marshal(in)
+	f.Write(bz)
+	f.Close()
+	out := f.Name() + ".out"
+	defer os.Remove(out)
+	cmd := exec.Command(os.Args[0], "-test.run", "^TestC01$", "-test.count=1")
+	cmd.Env = append(os.Environ(), "C01_CHILD_IN="+f.Name(), "C01_CHILD_OUT="+out)
+	if o, err := cmd.CombinedOutput(); err != nil {
+		return nil, fmt.Errorf("child: %v: %.500s", err, o)
+	}
+	res, err := os.ReadFile(out)
+	if err != nil {
+		return nil, err
+	}
+	var ds []string
+	if err := json.Unmarshal(res, &ds); err != nil {
+		return nil, err
+	}
+	return ds, nil
+}
+
+func runChild(inPath, outPath string) error {
+	bz, err := os.ReadFile(inPath)
+	if err != nil {
+		return err
+	}
+	var in c01Input
+	if err := json.Unmarshal(bz, &in); err != nil {
+		return err
+	}
+	r := newWorld().newReplica()
+	ds := []string{}
+	for _, b := range in.Blocks {
+		ds = append(ds, r.runBlock(b, false).all)
+	}
+	out, _ := json.Marshal(ds)
+	return os.WriteFile(outPath, out, 0o644)
+}
+
+func runDiff(w *world, in c01Input, withChild bool) diffObs {
 	reps := make([]*replica, nReplicas)
 	for i := range reps {
 		reps[i] = w.newReplica()
 	}
-	obs := diffObs{Replicas: make([][]int, nReplicas), Differs: []string{}, Kinds: map[string]int{}}
-	ids := map[string]int{}
+	obs := diffObs{Replicas: [][]int{}, Differs: []string{}, Kinds: map[string]int{}}
+	digests := make([][]string, nReplicas)
 	located := false
 	for _, b := range in.Blocks {
 		ds := make([]blockDigest, nReplicas)
 		for i, r := range reps {
 			ds[i] = r.runBlock(b, false)
-		}
-		for i := range reps {
-			id, ok := ids[ds[i].all]
-			if !ok {
-				id = len(ids)
-				ids[ds[i].all] = id
-			}
-			obs.Replicas[i] = append(obs.Replicas[i], id)
+			digests[i] = append(digests[i], ds[i].all)
 		}
 		for _, k := range ds[0].kinds {
 			obs.Kinds[k]++
@@ -676,6 +719,31 @@ func runDiff(w *world, in c01Input) diffObs {
 				}
 			}
 		}
+	}
+	if withChild {
+		ds, err := childDigests(in)
+		if err != nil {
+			panic(err)
+		}
+		digests = append(digests, ds)
+		obs.Child = true
+		if !located && fmt.Sprint(ds) != fmt.Sprint(digests[0]) {
+			obs.Differs = append(obs.Differs, "separate-process")
+		}
+	}
+	// small ids in first-appearance order: equal ids iff equal bytes
+	ids := map[string]int{}
+	for _, dl := range digests {
+		row := []int{}
+		for _, d := range dl {
+			id, ok := ids[d]
+			if !ok {
+				id = len(ids)
+				ids[d] = id
+			}
+			row = append(row, id)
+		}
+		obs.Replicas = append(obs.Replicas, row)
 	}
 	if os.Getenv("C01_DEBUG") != "" {
 		r := reps[0]
@@ -1019,7 +1087,7 @@ func runTW(in c01Input) int64 {
 func runOne(w *world, em *Emitter, in c01Input) {
 	switch in.T {
 	case "diff":
-		em.Emit(in, runDiff(w, in), nil)
+		em.Emit(in, runDiff(w, in, in.Child), nil)
 	case "sudo":
 		em.Emit(in, runSudo(in), nil)
 	case "omap":
@@ -1034,7 +1102,13 @@ func runOne(w *world, em *Emitter, in c01Input) {
 }
 
 func TestC01(t *testing.T) {
-	cfg := LoadCfg(t, 8, 120)
+	if p := os.Getenv("C01_CHILD_IN"); p != "" {
+		if err := runChild(p, os.Getenv("C01_CHILD_OUT")); err != nil {
+			t.Fatal(err)
+		}
+		return
+	}
+	cfg := LoadCfg(t, 16, 200)
 	em := NewEmitter(t, cfg.Out)
 	defer em.Close()
 	w := newWorld()
@@ -1054,12 +1128,14 @@ func TestC01(t *testing.T) {
 		if i < 2 {
 			opener = i + 1
 		}
-		runOne(w, em, genDiff(rng.Fork(), opener))
+		in := genDiff(rng.Fork(), opener)
+		in.Child = i < 3 || (cfg.Tier == "thorough" && i%2 == 0)
+		runOne(w, em, in)
 	}
 	for i := 0; i < 3; i++ {
 		runOne(w, em, c01Input{T: "abi", Which: i})
 	}
-	nSub := 6 * cfg.N
+	nSub := 3 * cfg.N
 	for i := 0; i < nSub; i++ {
 		r := rng.Fork()
 		runOne(w, em, genSudo(r))
